@@ -8,6 +8,7 @@ fn main() {
     let mut seed = 1u64;
     let mut out = PathBuf::from("run");
     let mut replay: Option<String> = None;
+    let mut resolve = false;
     let mut i = 1;
     while i < args.len() {
         match args[i].as_str() {
@@ -15,9 +16,15 @@ fn main() {
             "--seed" => { i += 1; seed = args[i].parse().unwrap_or(1); },
             "--out" => { i += 1; out = PathBuf::from(&args[i]); },
             "--replay" => { i += 1; replay = Some(args[i].clone()); },
+            "--resolve" => { resolve = true; },
             s => id = s.to_string(),
         }
         i += 1;
+    }
+    if resolve {
+        // second pass: evaluate the external calls the model left in its output (codec runs for C10)
+        if id == "C10" { corr::c10::resolve(&out); }
+        return;
     }
     silence_panics();
     let mut ctx = Ctx::new(&id, tier, seed, out);
@@ -26,6 +33,8 @@ fn main() {
         ctx.replay = Some(text.lines().map(|s| s.to_string()).filter(|s| !s.is_empty() && !s.starts_with('#')).collect());
     }
     match id.as_str() {
+        "C10" => corr::c10::run(&mut ctx),
+        "C12" => corr::c12::run(&mut ctx),
         "C13" => corr::c13::run(&mut ctx),
         "C14" => corr::c14::run(&mut ctx),
         "C15" => corr::c15::run(&mut ctx),
